@@ -18,7 +18,8 @@ RULE = ("One case = one simulated multi-worker history (sh and wf moves so that 
         "non-trivial = at least one matrix with a busy ensemble or unequal weights was checked.")
 ASSUMPTIONS = ["only states reached by simulated histories are checked (the for-all-matrices statement is "
                "input enumeration, which this technique does not do)",
-               "blocks larger than 12 (Monte-Carlo branch) are not reached with <= 9 ensembles"]
+               "idle blocks up to 9 are compared with exact rational permanents (rtol 1e-8), 10..14 with a "
+               "long-double Glynn permanent (rtol 1e-6); one case in 30 is a 14-ensemble all-wf system"]
 REAL, STUB = C.REAL, C.STUB
 
 
@@ -31,6 +32,11 @@ def make_case(seed, i, tier):
     prof = {"n_intf_choices": [3, 4, 5, 6, 7, 8], "wf_p": rng.choice([0.0, 0.5, 0.8, 1.0]),
             "steps_choices": [10, 16, 24, 40], "maxlength": rng.choice([40, 200]),
             "delete_old": False}
+    if i % 30 == 29:
+        # one large system: 14 ensembles, all wire fencing, one worker - blocks above the size at which
+        # the code switches algorithms
+        prof.update(n_intf=14, wf_p=1.0, workers=1, steps=3, maxlength=200, lambda_minus_one=False,
+                    multi_engine=False, order_model="fifo")
     scn = SC.gen_scenario(rng, prof)
     scn["plan"] = [{"steps": scn["steps"]}]
     return {"seed": seed, "scn": scn, "props": [PROP]}
